@@ -8,6 +8,7 @@ import (
 	"sort"
 	"strings"
 
+	"github.com/openziti/foundation/v2/errorz"
 	"github.com/openziti/storage/boltz"
 	"go.etcd.io/bbolt"
 )
@@ -141,6 +142,15 @@ func ExecOp(s *Stores, ctx boltz.MutateContext, op Op) (res execResult) {
 			_, _, err := rc.SetLinkCount(tx, []byte(op.Id), []byte(op.Keys[0]), op.N)
 			res.err = err
 		}
+	case "initIndexes":
+		// what an application does at start-up: every store creates its index buckets ahead of the first entity
+		holder := &errorz.ErrorHolderImpl{}
+		for _, st := range s.All() {
+			st.(interface {
+				InitializeIndexes(*bbolt.Tx, errorz.ErrorHolder)
+			}).InitializeIndexes(tx, holder)
+		}
+		res.err = holder.GetError()
 	default:
 		panic("exec: unknown op kind " + op.K)
 	}
